@@ -58,6 +58,14 @@ Proof.
   repeat split; try apply i32_range; try lia; try tauto.
 Qed.
 
+Section WithPut.
+Variable put : N -> list N -> jv -> list (list N * jv) -> list (list N * jv).
+Local Notation parse_value := (parse_value_g put).
+Local Notation parse_elems := (parse_elems_g put).
+Local Notation parse_members := (parse_members_g put).
+Local Notation parse_text_fuel := (parse_text_fuel_g put).
+Local Notation parse_text := (parse_text_g put).
+
 (* the three clauses together *)
 Lemma total_double : forall (f : nat) (d c : N) (r : list N),
   c = 45 \/ is_digit c = true ->
@@ -68,3 +76,5 @@ Proof.
   intros f d c r Hc. split; [apply parse_value_number; exact Hc|].
   split; [apply parse_number_good|]. intros v rest H. exact (parse_number_dbl _ _ _ H).
 Qed.
+
+End WithPut.
